@@ -34,7 +34,8 @@ impl Vector<Complex::<f64>> {
     pub fn norm_inf(&self) -> f64 {
         let mut result = self.vec[0].abs();
         for i in 1..self.size() {
-            if result < self.vec[i].abs() {
+            // A NaN element makes the norm NaN (it must not be skipped by the comparison)
+            if result < self.vec[i].abs() || self.vec[i].abs().is_nan() {
                 result = self.vec[i].abs();
             }
         }
